@@ -72,6 +72,8 @@ def run_ledger(prop, profiles, tier, seed, rule_extra="", verdict=None):
             n0 = len(trans)
             if logged:
                 for t in r.tlines:
+                    if t["s"].get("pairAdded") or (isinstance(t["sc"], dict) and t["sc"].get("pairAdded")):
+                        continue     # a pre-state with the oracle pair already added is not materialised (block replay covers it)
                     trans.setdefault((vf.canon(t["s"]), vf.canon(t["sc"]), vf.canon(t["a"])), t)
             cfgs.append({"cfg": cfg, "mode": "simulate" if "simulate" in kw else "exhaustive", "distinct": r.distinct,
                          "generated": r.generated, "new_distinct_transitions": len(trans) - n0, "wall_s": round(r.wall, 1)})
